@@ -270,42 +270,59 @@ Definition vconcat_any_v0 (_ : list val) : res val := Err e_type.
    nothing), followed by the successor's input converter convertTo (an empty mapping result
    becomes the zero value of the input type: "" / empty map).
    [FTo es]: the successor's input is a map; every entry (from, to) puts the predecessor's
-   whole output (from = None: ToField) or its field `from` (MapFields) under key `to`.
-   [FTake a]: the successor's input is the predecessor's field a (FromField).
-   Fields read one by one are string-valued (a field that holds a map is not read by the
-   mappings the harness builds; the model treats it like an absent one). *)
+   whole output (from = None: ToField) or its field `from` (MapFields) under key `to` — a
+   string, or a map (which then sits under `to` as a nested map).
+   [FTake a as_map]: the successor's input is the predecessor's field a (FromField), a
+   string or (as_map) a nested map. *)
 Inductive fmap : Type :=
 | FTo (es : list (option N * N))
-| FTake (a : N).
+| FTake (a : N) (as_map : bool).
 
-(* raw entries one chunk (or the whole value, [strict]) contributes; None = a value of the
-   wrong type for this mapping *)
+(* what one mapping contributes for one map chunk (or for the whole map) *)
+Definition contribM (m : amap) (e : option N * N) : amap :=
+  match fst e with
+  | None => nest (snd e) m
+  | Some a =>
+      if mhas (kstr a) m then [(kstr (snd e), mgather (kstr a) m)]
+      else if hd_has a m then nest (snd e) (unnest a m)
+      else []
+  end.
+
+(* ... for a chunk of any type ([strict]: the whole value, a missing field is an error) *)
+Definition fm_one (strict : bool) (e : option N * N) (x : val) : res amap :=
+  match fst e, x with
+  | None, VS s => Ok [(kstr (snd e), s)]
+  | Some _, VS _ => Err e_type
+  | None, VM m => Ok (contribM m e)
+  | Some a, VM m =>
+      if strict && negb (mhas (kstr a) m || hd_has a m) then Err e_nokey else Ok (contribM m e)
+  end.
+
 Fixpoint fm_entries (strict : bool) (es : list (option N * N)) (x : val) : res amap :=
   match es with
   | [] => Ok []
-  | (from, to) :: es' =>
-      do e <- match from, x with
-              | None, VS s => Ok [(kstr to, s)]
-              | Some a, VM m =>
-                  if mhas (kstr a) m then Ok [(kstr to, mgather (kstr a) m)]
-                  else if strict then Err e_nokey else Ok []
-              | _, _ => Err e_type
-              end;
-      do r <- fm_entries strict es' x;
-      Ok (e ++ r)
+  | e :: es' => do r1 <- fm_one strict e x; do r <- fm_entries strict es' x; Ok (r1 ++ r)
   end.
 
-(* FromField: the string under the key a *)
+(* FromField: the string / the map under the key a *)
 Definition v_getStr (a : N) (x : val) : res val :=
   match x with
   | VM m => match mlookup (kstr a) m with Some s => Ok (VS s) | None => Err e_nokey end
   | VS _ => Err e_type
   end.
 
+Definition v_getMap (a : N) (x : val) : res val :=
+  match x with
+  | VM m => if mhas (kstr a) m then Err e_type
+            else if hd_has a m then Ok (VM (ins_all (unnest a m) [])) else Err e_nokey
+  | VS _ => Err e_type
+  end.
+
 Definition v_fmap (f : fmap) (x : val) : res val :=
   match f with
   | FTo es => do r <- fm_entries true es x; Ok (VM (ins_all r []))
-  | FTake a => v_getStr a x
+  | FTake a false => v_getStr a x
+  | FTake a true => v_getMap a x
   end.
 
 Definition s_fmap (f : fmap) (s : stream val) : stream val :=
@@ -317,10 +334,15 @@ Definition s_fmap (f : fmap) (s : stream val) : stream val :=
                                  | Ok r => Val (VM (ins_all r []))
                                  | _ => Bad e_type
                                  end
-                     | FTake a => match x with
-                                  | VM m => Val (VS (mgather (kstr a) m))
-                                  | VS _ => Bad e_type
-                                  end
+                     | FTake a false => match x with
+                                        | VM m => Val (VS (mgather (kstr a) m))
+                                        | VS _ => Bad e_type
+                                        end
+                     | FTake a true => match x with
+                                       | VM m => if mhas (kstr a) m then Bad e_type
+                                                 else Val (VM (ins_all (unnest a m) []))
+                                       | VS _ => Bad e_type
+                                       end
                      end
                  end) s.
 
@@ -328,13 +350,19 @@ Definition s_fmap (f : fmap) (s : stream val) : stream val :=
 Definition fmap_from (f : fmap) : list N :=
   match f with
   | FTo es => flat_map (fun e => match fst e with Some a => [a] | None => [] end) es
-  | FTake a => [a]
+  | FTake a _ => [a]
   end.
 
-(* every key the mapping reads is there (the other case is finding F-C04c) *)
+(* every field the mapping reads is there (the other case is finding F-C04c), with the type
+   the successor was declared with *)
 Definition fmap_dom (f : fmap) (x : val) : bool :=
   match x with
-  | VM m => forallb (fun a => mhas (kstr a) m) (fmap_from f)
+  | VM m =>
+      match f with
+      | FTo _ => forallb (fun a => mhas (kstr a) m || hd_has a m) (fmap_from f)
+      | FTake a false => mhas (kstr a) m
+      | FTake a true => mhas (kstr a) m || hd_has a m
+      end
   | VS _ => true
   end.
 
@@ -348,7 +376,7 @@ Fixpoint nodup_N (l : list N) : bool :=
 Definition fmap_wf (f : fmap) : bool :=
   match f with
   | FTo es => negb (match es with [] => true | _ => false end) && nodup_N (map snd es)
-  | FTake _ => true
+  | FTake _ _ => true
   end.
 
 (* t is an interleaving of the sources ls: it can be consumed by repeatedly taking the
